@@ -254,4 +254,11 @@ example : dms_fields (10 + 59 / 60 + 59.9999 / 3600) 0 = (11, 0, 0, 1) ∧
     dms_fields (-(10 + 59 / 60 + 59.9999 / 3600)) 0 = (11, 0, 0, -1) ∧
     dms_fields (-(10 + 59 / 60 + 59.9999 / 3600)) 4 = (10, 59, 59.9999, -1) := by decide +kernel
 
+/-- With no rounding requested (`n_dec < 0`) `dms_str` prints exactly the fields `dms_tuple` returns,
+    for every value. -/
+theorem fields_unrounded_eq_tuple (a : Angle) (n : ℤ) (hn : n < 0) : dms_fields a.deg n = dms_tuple a := by
+  unfold dms_fields dms_tuple
+  have : ¬ (n ≥ 0) := by omega
+  simp only [this, if_false]
+
 end Pymeeus.C04
